@@ -64,7 +64,7 @@ func (f *c14File) render(v, y string, asWritten bool) string {
 }
 
 var c14Versions = []string{"4.0.0", "4.1.0", "4.2.0", "3.3.5", "10.20.30", "4.1.0-rc1", "4.1.0-RC1", "4.1.0-rc.1", "v4.1.0", "v4.3.0-rc2",
-	"4.1.0+b1", "4.1.0-dev+build.5", "4.1", "4", "v4.2", "5.0.0-alpha-1", "4.9.0-7-gdeadbee"}
+	"4.1.0+b1", "4.1.0-dev+build.5", "4.1", "4", "v4.2", "5.0.0-alpha-1", "4.9.0-7-gdeadbee", "0.9.1", "0.0.1", "0.10.0-rc1", "4.0.0+20261003042500123456", "4.0.0-20261003042500.123456789012"}
 
 func c14Gen(r *rand.Rand) *c14Case {
 	c := &c14Case{V0: core.Pick(r, c14Versions...), Y0: fmt.Sprint(2021 + r.Intn(6))}
@@ -260,7 +260,7 @@ func init() {
 		Rule: "generated CRS trees (1..4 .conf/.example files anywhere below the root, each 3..27 lines mixing the five marker kinds with prose that merely resembles markers; CRLF; missing final newline; decoys with near-miss names and a file outside the root) start at a version v0 drawn from the accepted forms (x.y.z, -rc1, -RC1, -rc.1, v prefix, +build, x.y, x, git-describe style) and get a sequence of 1..3 update-copyright invocations. " +
 			"Oracle after every step: each generated file equals the line model (every marker shows the step's version / its digits / year, every other line as it was), nothing else in the sandbox changed, a repeated command is a no-op. Non-trivial = >= 2 markers and a final version different from v0.",
 		Cases: func(env *core.Env, rng *rand.Rand) []core.Case {
-			n := env.N(200, 4000)
+			n := env.N(800, 8000)
 			var cs []core.Case
 			for i := 0; i < n; i++ {
 				cs = append(cs, c14Gen(rng))
